@@ -73,6 +73,28 @@ theorem comparePoses_is_source (ta tb : Iso R) (dT aT : R) :
 theorem kinematicSingularity_is_source (p : Params R) (j : J6 R) :
     SrcCtl.kinematicSingularitySrc p j = kinematicSingularity p j := kinematicSingularitySrc_eq p j
 
+/-- [G] the wrist-singular recovery of `inverse_continuing` as the CURRENT source text computes it (which of the two
+J4/J6 combinations, the two `while` wraps of their difference into [-pi, pi], half of it added to the previous J4 and J6 with
+their signs, J5 brought next to the previous J5 in the 180-degree case) is the model's `singularCandidate`, on which the C05
+theorems (`equal_shift`, first answer = previous) are stated -/
+theorem singularCandidate_is_source (p : Params R) (previous now : J6 R) :
+    SrcCtl.singularCandidateSrc p previous now =
+      ((singularCandidate p previous now).j4, (singularCandidate p previous now).j5, (singularCandidate p previous now).j6) ∧
+    (singularCandidate p previous now).j1 = now.j1 ∧ (singularCandidate p previous now).j2 = now.j2 ∧
+    (singularCandidate p previous now).j3 = now.j3 :=
+  ⟨singularCandidateSrc_eq p previous now, rfl, rfl, rfl⟩
+
+/-- [G] the cost the CURRENT source sorts continuation answers by is the model's `sortCost`: the weighted comparator (robots
+with limits and a sorting weight other than BY_PREV) computes `(sortCost a, sortCost b)` from the four distances, and in the
+other case the source's plain comparator is distance-to-previous (translator check), which is `sortCost` too -/
+theorem sortCost_is_source (k : Opw R) (previous a b : J6 R) :
+    (∀ c, k.cons = some c → feq c.sortingWeight byPrev = false →
+      SrcCtl.sortCostPairSrc c.sortingWeight (calculateDistance a previous) (calculateDistance b previous)
+        (calculateDistance a c.centers) (calculateDistance b c.centers) = (k.sortCost previous a, k.sortCost previous b)) ∧
+    ((k.cons = none ∨ ∃ c, k.cons = some c ∧ feq c.sortingWeight byPrev = true) →
+      k.sortCost previous a = calculateDistance a previous) :=
+  ⟨fun c hc hw => sortCostPairSrc_eq k c hc hw previous a b, sortCost_plain k previous a⟩
+
 theorem insideBounds_is_source (angle centre tol : R) :
     SrcCtl.insideBoundsSrc angle centre tol = insideBounds angle centre tol := insideBoundsSrc_eq angle centre tol
 
